@@ -204,6 +204,27 @@ func c04CanonAll(toks []string) []string {
 	return out
 }
 
+// c04Freshen: the last access times a recorded plan writes carry the recording run's clock; replayed
+// minutes later they would look old to the file map (5 minute resolution). Times of this run are
+// replaced by the current time when the plan is used.
+func c04Freshen(plan []verifh.FSCall) []verifh.FSCall {
+	out := make([]verifh.FSCall, len(plan))
+	copy(out, plan)
+	for i, c := range out {
+		if c.Kind != "pwrite" || !strings.HasSuffix(c.A, "/_last_access_time") || c.Off != 0 {
+			continue
+		}
+		sec, n := binary.Varint(c.Data)
+		if n > 0 && time.Since(time.Unix(sec, 0)) < 24*time.Hour {
+			b, err := metadata.NewLastAccessTime(time.Now()).Serialize()
+			if err == nil && len(b) == len(c.Data) {
+				out[i].Data = b
+			}
+		}
+	}
+	return out
+}
+
 func (e *c04Env) fresh(name string) string {
 	p := filepath.Join(e.scratch, name)
 	os.RemoveAll(p)
@@ -398,6 +419,7 @@ func c04Exec(t *verifh.T, c verifh.Case, caseIdx int, base string, plans map[[2]
 		snap := ""
 		if e.phase == "B" && wantCrash {
 			plan, havePlan = plans[[2]int{caseIdx, i}]
+			plan = c04Freshen(plan)
 		}
 		if havePlan {
 			snap = e.fresh("snap")
